@@ -416,16 +416,28 @@ def check_name(name, optional=True):
 
 
 def capture(x, name=None):
-    check_name(name)
+    ambiguous = False
+    try:
+        check_name(name)
+    except Unspec:
+        # a name of word characters outside ASCII: whether it is refused is left open, but if it is accepted
+        # the result must be the group with exactly that name
+        if not (isinstance(name, str) and name.isidentifier()):
+            raise
+        ambiguous = True
     if x.k == 'Empty':
         return x
     if x.k == 'Raw':
         raise Unspec('capture-of-raw')
     if x.k == 'Cap':
-        return N('Cap', x=x.x, name=name if name is not None else x.name)
-    if x.k == 'Grp' and not x.ci:
-        return N('Cap', x=x.x, name=name)
-    return N('Cap', x=x, name=name)
+        out = N('Cap', x=x.x, name=name if name is not None else x.name)
+    elif x.k == 'Grp' and not x.ci:
+        out = N('Cap', x=x.x, name=name)
+    else:
+        out = N('Cap', x=x, name=name)
+    if ambiguous:
+        raise Expect(T_NAME, also=out)
+    return out
 
 
 def group(x, ci=False):
